@@ -230,6 +230,16 @@ void TaskScheduler::StopThreads( bool bWait_ )
     }
 }
 
+void TaskScheduler::CompletePartition( ITaskSet* pTask_ )
+{
+    // read the flag first: once the count is zero a waiting owner may release the task
+    bool bDelete = pTask_->m_DeleteOnCompletion;
+    if( 1 == AtomicAdd( &pTask_->m_RunningCount, -1 ) && bDelete )
+    {
+        delete pTask_;
+    }
+}
+
 bool TaskScheduler::TryRunTask( uint32_t threadNum, uint32_t& hintPipeToCheck_io_ )
 {
     // Run any tasks for this thread
@@ -265,7 +275,7 @@ bool TaskScheduler::TryRunTask( uint32_t threadNum, uint32_t& hintPipeToCheck_io
 #ifdef RKCOMMON_VERIF
             RKCOMMON_VERIF_POINT("ts.after_execute", this);
 #endif
-            AtomicAdd( &taskToRun.pTask->m_RunningCount, -1 );
+            CompletePartition( taskToRun.pTask );
         }
         else
         {
@@ -275,7 +285,7 @@ bool TaskScheduler::TryRunTask( uint32_t threadNum, uint32_t& hintPipeToCheck_io
 #ifdef RKCOMMON_VERIF
             RKCOMMON_VERIF_POINT("ts.after_execute", this);
 #endif
-            AtomicAdd( &subTask.pTask->m_RunningCount, -1 );
+            CompletePartition( subTask.pTask );
         }
     }
 
@@ -348,7 +358,7 @@ void TaskScheduler::SplitAndAddTask( uint32_t threadNum_, SubTaskSet subTask_, u
                 subTask_.partition.start = taskToAdd.partition.end;
             }
             taskToAdd.pTask->ExecuteRange( taskToAdd.partition, threadNum_ );
-            AtomicAdd( &subTask_.pTask->m_RunningCount, -1 );
+            CompletePartition( subTask_.pTask );
         }
         else
         {
